@@ -1,5 +1,5 @@
 """The flow shared by all units: corpus -> expansions -> Verus modules -> obligations -> Kani twins -> replay."""
-import os, re, shutil
+import os, re, shutil, time
 from .. import core, expand, assemble, run_kani, replay
 
 class Unit:
@@ -95,7 +95,8 @@ class Unit:
         if not progs:
             return
         d = self.kani_crate(ctx, progs)
-        res = run_kani.run(d, jobs=self.kani_jobs, extra_flags=flags, harness_timeout=getattr(self, 'kani_harness_timeout', 600))
+        filters = ['%s::vx_proofs::%s' % (p.name_mod(), h) for p in progs for h, _ in self.kani_harnesses(ctx, p)]
+        res = run_kani.run(d, filters=filters, jobs=self.kani_jobs, extra_flags=['--exact'] + list(flags), harness_timeout=getattr(self, 'kani_harness_timeout', 600))
         ctx.log('kani: %d harnesses %.1fs rc=%s' % (len(res.harnesses), res.wall, res.rc))
         be = ctx.backends.setdefault('kani', {})
         be.update({'wall_s': round(res.wall, 1), 'solver_s': round(res.solver_s, 2), 'version': res.version})
@@ -145,17 +146,15 @@ class Unit:
         if not want:
             return
         d = self.kani_crate(ctx, [p for p in progs if any(o.prog == p.name for o in failed)])
-        res = run_kani.run(d, filters=sorted(want), jobs=8)
-        ctx.log('kani twins for %d failed obligations: %.1fs rc=%s' % (len(failed), res.wall, res.rc))
-        if res.compile_error:
-            ctx.log('kani: ' + res.compile_error[:300])
-            return
         done = 0
+        tried = 0
         for hid, lst in sorted(want.items()):
-            h = res.harnesses.get(hid)
-            if not h or h['status'] == 'Success' or done >= 3:
-                continue
-            tests = run_kani.playback(d, hid)
+            if done >= 2 or tried >= 4:
+                break
+            tried += 1
+            t0 = time.time()
+            tests = run_kani.playback(d, hid, timeout=getattr(self, 'cex_timeout', 300))
+            ctx.log('kani twin %s: %d counterexample(s) in %.1fs' % (hid, len(tests), time.time() - t0))
             for o in lst:
                 p = byname[o.prog]
                 for t in tests:
